@@ -426,7 +426,11 @@ func genC02(r *Rng, idx int, tier string) *Scenario {
 				st.Fault.Data[16] = 46
 			}
 		case 13:
-			st.Fault = &Fault{Kind: "truncate", Len: r.Intn(200)}
+			if r.Bool() {
+				st.Fault = &Fault{Kind: "truncate", Len: r.Intn(200)}
+			} else {
+				st.Fault = &Fault{Kind: "prepend", Data: Pick(r, Hex{0, 0, 0, 0}, Hex{0xff}, Hex{0, 0, 0, 0, 0, 0, 0, 0}, r.Bytes(r.Range(1, 28)))}
+			}
 		}
 		sc.Steps = append(sc.Steps, st)
 	}
